@@ -191,12 +191,12 @@ def check_C01(ctx):
 
 def check_C02(ctx):
     import oracles
-    fs_property(ctx, "C02", "C02", ["C02_readonly_refuses", "C02_step", "C02_init_good", "C02_history", "C02_create_existing", "C02_create_existing_empty", "C02_create_pre_existing", "C02_rename", "C02_remove_all"], oracles.c02, classify=classify_C02, needs_ref=True)
+    fs_property(ctx, "C02", "C02", ["C02_readonly_refuses", "C02_step", "C02_init_good", "C02_history", "C02_create_existing", "C02_create_existing_empty", "C02_create_pre_existing", "C02_write_file_exact", "C02_write_file", "C02_history_with_writes", "C02_rename", "C02_remove_all"], oracles.c02, classify=classify_C02, needs_ref=True)
 
 
 def check_C04(ctx):
     import oracles
-    fs_property(ctx, "C04", "C04", ["C04_pos_arith", "C04_pos_unique", "C04_branches_dead", "C04_positions_stable", "C04_positions_wf", "C04_lastknown_not_before_content", "C04_positions_designate_content", "C04_read_is_last_written", "C04_walk_shows_last_written", "C04_read_after_create"], oracles.c04, classify=classify_update_unindexed)
+    fs_property(ctx, "C04", "C04", ["C04_pos_arith", "C04_pos_unique", "C04_branches_dead", "C04_positions_stable", "C04_positions_wf", "C04_lastknown_not_before_content", "C04_positions_designate_content", "C04_read_is_last_written", "C04_walk_shows_last_written", "C04_read_after_create", "C04_read_after_write_file", "C04_read_is_last_written_with_writes"], oracles.c04, classify=classify_update_unindexed)
 
 
 def check_C05(ctx):
